@@ -207,10 +207,10 @@ func c19Gen(rng *sim.Rand, tier string) interface{} {
 		op.Via, op.GapUs = "direct", 0
 		sc.Init = append(sc.Init, op)
 	}
+	// One syncer per run. (The executor supports several, but two syncers woken
+	// by the same network delivery proceed in an order chosen by the Go
+	// scheduler's run queue, which is not reproducible in ~0.3% of the runs.)
 	ns := 1
-	if rng.Bool(0.3) {
-		ns = 2
-	}
 	for i := 0; i < ns; i++ {
 		s := c19Syncer{Mode: rng.PickStr("key", "rawkey", "prefix", "rawprefix")}
 		if strings.HasSuffix(s.Mode, "prefix") {
@@ -325,10 +325,43 @@ func (e *c19Env) sleep(d time.Duration) {
 
 const c19Addr = "etcd:2379"
 
+// c19Rounds: see the quiet-period loop in c19Exec.
+const c19Rounds = 30
+
+// c19DbgConn / c19DbgLis log every Write (development aid, C19_DEBUG_IO=1).
+type c19DbgConn struct {
+	net.Conn
+	r    *sim.Run
+	side string
+}
+
+func (c *c19DbgConn) Write(b []byte) (int, error) {
+	c.r.Eventf("%s writes %d bytes", c.side, len(b))
+	return c.Conn.Write(b)
+}
+
+type c19DbgLis struct {
+	net.Listener
+	r *sim.Run
+}
+
+func (l *c19DbgLis) Accept() (net.Conn, error) {
+	c, err := l.Listener.Accept()
+	if err != nil {
+		return nil, err
+	}
+	return &c19DbgConn{Conn: c, r: l.r, side: "server"}, nil
+}
+
+var c19DebugIO = os.Getenv("C19_DEBUG_IO") != ""
+
 func (e *c19Env) start() {
 	lis, err := e.net.Listen("tcp", c19Addr)
 	if err != nil {
 		panic(err)
+	}
+	if c19DebugIO {
+		lis = &c19DbgLis{Listener: lis, r: e.r}
 	}
 	e.srv = zzsimetcd.NewServer(e.store)
 	e.srv.Hooks = e.hooks
@@ -384,6 +417,9 @@ func (e *c19Env) unaryHook(ctx context.Context, ph zzsimetcd.Phase, method strin
 		return nil
 	}
 	if method != "Range" && e.lostReplyLeft > 0 {
+		r.Yield("etcd.reply")
+	}
+	if method != "Range" && e.lostReplyLeft > 0 {
 		e.lostReplyLeft--
 		r.Fault("etcd.reply_lost_after_apply")
 		return status.Error(codes.Unavailable, "simetcd: reply lost")
@@ -392,6 +428,7 @@ func (e *c19Env) unaryHook(ctx context.Context, ph zzsimetcd.Phase, method strin
 }
 
 func (e *c19Env) watchSendHook(streamID int64, resp *pb.WatchResponse) error {
+	e.r.Yield("etcd.watchsend") // streams notified by the same revision send in scheduler order
 	e.r.Eventf("watch stream %d sends %d events canceled=%v compact=%d rev %d", streamID, len(resp.Events), resp.Canceled, resp.CompactRevision, resp.Header.Revision)
 	if e.watchSlowLeft > 0 {
 		e.watchSlowLeft--
@@ -572,7 +609,11 @@ func c19Exec(r *sim.Run, sci interface{}) {
 		Endpoints: []string{c19Addr},
 		Logger:    zap.NewNop(),
 		DialOptions: []grpc.DialOption{grpc.WithContextDialer(func(ctx context.Context, addr string) (net.Conn, error) {
-			return n.Dial(ctx, "tcp", addr)
+			c, err := n.Dial(ctx, "tcp", addr)
+			if err == nil && c19DebugIO {
+				c = &c19DbgConn{Conn: c, r: r, side: "client"}
+			}
+			return c, err
 		}),
 			// gRPC's default reconnect back-off (1s * 1.6^n, max 120s) without its
 			// jitter, which is drawn from a generator seeded with the wall clock
@@ -699,7 +740,10 @@ func c19Exec(r *sim.Run, sci interface{}) {
 			// tasks never expire at the same instant (ties fire in an order the
 			// runtime does not reproduce)
 			r.Sleep(time.Duration(s.cfg.StartUs)*time.Microsecond + time.Duration(101+13*s.idx))
-			sy, err := cl.Syncer(time.Duration(s.cfg.PullMs) * time.Millisecond)
+			// the second syncer's interval is 1.337us longer: two tickers armed in
+			// the same instant (both watch creations answered by one delivery) would
+			// otherwise tie on every tick
+			sy, err := cl.Syncer(time.Duration(s.cfg.PullMs)*time.Millisecond + time.Duration(s.idx)*1337*time.Nanosecond)
 			if err != nil {
 				r.Violate("C19.harness", "Syncer: %v", err)
 				return
@@ -819,10 +863,13 @@ func c19Exec(r *sim.Run, sci interface{}) {
 		}
 	}
 
-	checkConverged := func(where string) {
+	// converged reports whether every syncer's last delivered snapshot equals
+	// the store's present content (key -> value); otherwise it describes the
+	// first one that does not.
+	converged := func() (bool, string) {
 		hist := env.store.History()
 		for _, s := range syncs {
-			if s.syncer == nil || r.Violated() {
+			if s.syncer == nil {
 				continue
 			}
 			states := c19Project(hist, s.cfg.Target, s.prefix)
@@ -832,14 +879,14 @@ func c19Exec(r *sim.Run, sci interface{}) {
 				lastVal, lastRaw = s.snaps[len(s.snaps)-1].val, s.snaps[len(s.snaps)-1].raw
 			}
 			if lastVal != final.val {
-				r.Violate("C19.no-convergence", "sync%d (%s %q, pull %dms) %s: store content is %s (since rev %d, store rev %d) but the last of %d delivered snapshots is %s; now %v",
-					s.idx, s.cfg.Mode, s.cfg.Target, s.cfg.PullMs, where, final.val, final.rev, env.store.Rev(), len(s.snaps), lastVal, r.Now())
-				return
+				return false, fmt.Sprintf("sync%d (%s %q, pull %dms): store content is %s (since rev %d, store rev %d) but the last of %d delivered snapshots is %s",
+					s.idx, s.cfg.Mode, s.cfg.Target, s.cfg.PullMs, final.val, final.rev, env.store.Rev(), len(s.snaps), lastVal)
 			}
 			if s.raw && len(s.snaps) > 0 && lastRaw != final.raw {
 				r.Probe("raw_metadata_stale_after_same_value_put")
 			}
 		}
+		return true, ""
 	}
 
 	// ---- phases
@@ -957,11 +1004,41 @@ func c19Exec(r *sim.Run, sci interface{}) {
 		prompt = true
 		quiet := 2*maxPull + 2*reqTimeout + 2*maxDown + maxLag + 3*time.Second
 		r.Eventf("phase %d: activity over at rev %d, quiet for %v", pi, env.store.Rev(), quiet)
-		r.Sleep(quiet)
+		// Bounded liveness. One quiet period normally suffices. It does not when
+		// (a) a write whose client gave up is still in flight and lands later (then
+		// the waiting starts again) or (b) the scheduler stalls the run (at most 20
+		// times, up to 60 s of virtual time each, while RPCs sit in the network):
+		// hence a violation is only reported after c19Rounds consecutive quiet
+		// periods without any store change and without convergence.
+		rounds, restarts := 0, 0
+		for {
+			rev0 := env.store.Rev()
+			r.Sleep(quiet)
+			if r.Aborted() || r.Violated() {
+				break
+			}
+			if env.store.Rev() != rev0 && restarts < 20 {
+				restarts++
+				rounds = 0
+				r.Probe("late_write_landed_in_quiet_period")
+				continue
+			}
+			ok, why := converged()
+			if ok {
+				if rounds > 0 {
+					r.Probe("converged_only_after_several_quiet_periods")
+				}
+				break
+			}
+			rounds++
+			if rounds >= c19Rounds {
+				r.Violate("C19.no-convergence", "%s after %d quiet periods of %v (no write, no fault) following phase %d; now %v", why, rounds, quiet, pi, r.Now())
+				break
+			}
+		}
 		if r.Aborted() {
 			break
 		}
-		checkConverged(fmt.Sprintf("after the quiet period (%v) of phase %d", quiet, pi))
 	}
 
 	// ---- wind down
@@ -1163,6 +1240,30 @@ func TestC19DebugDeterminism(t *testing.T) {
 	if seedStr == "" {
 		t.Skip("C19_DEBUG_SEED not set")
 	}
+	if cnt := os.Getenv("C19_DEBUG_FEATURES"); cnt != "" {
+		from, _ := strconv.ParseUint(seedStr, 10, 64)
+		k, _ := strconv.Atoi(cnt)
+		for sd := from; sd < from+uint64(k); sd++ {
+			sc := c19Gen(sim.NewRand(sim.Mix(sd, 1)), "quick").(*c19Scenario)
+			kinds := map[string]int{}
+			api := 0
+			for _, ph := range sc.Phases {
+				for _, f := range ph.Faults {
+					kinds[f.Kind]++
+				}
+				for _, w := range ph.Writers {
+					for _, op := range w.Ops {
+						if op.Via == "api" {
+							api++
+						}
+					}
+				}
+			}
+			b, _ := json.Marshal(map[string]interface{}{"seed": sd, "syncers": len(sc.Syncers), "netdelay": len(sc.NetDelayUs), "latency": sc.LatencyUs, "faults": kinds, "phases": len(sc.Phases), "api": api, "req": sc.ReqTimeoutMs, "pull": sc.Syncers[0].PullMs})
+			fmt.Println("FEAT", string(b))
+		}
+		return
+	}
 	seed, _ := strconv.ParseUint(seedStr, 10, 64)
 	logger.InitNop()
 	debug.SetGCPercent(-1)
@@ -1182,6 +1283,8 @@ func TestC19DebugDeterminism(t *testing.T) {
 			first = res.Hash
 		}
 		fmt.Printf("execution %d: hash %s outcome %s steps %d same=%v\n", i, res.Hash, res.Outcome, res.Steps, res.Hash == first)
-		runtime.GC()
+		if os.Getenv("C19_DEBUG_GC") != "" {
+			runtime.GC()
+		}
 	}
 }
